@@ -76,6 +76,15 @@ def _local_dict(fn, name):
     return None
 
 
+def _literal_dict(v):
+    if isinstance(v, ast.Call) and isinstance(v.func, ast.Name) and v.func.id == 'dict' and not v.args and \
+            all(k.arg is not None for k in v.keywords):
+        return {k.arg: k.value for k in v.keywords}
+    if isinstance(v, ast.Dict) and all(isinstance(k, ast.Constant) and isinstance(k.value, str) for k in v.keys):
+        return {k.value: val for k, val in zip(v.keys, v.values)}
+    return None
+
+
 def _passed(g, bound, call, name, fn=None):
     """The argument expression passed for parameter `name` of g:
     ('kw'|'pos', node) | ('spread', None) | None.  With `fn` (the caller) a
@@ -86,7 +95,7 @@ def _passed(g, bound, call, name, fn=None):
     opaque_spread = False
     for k in call.keywords:
         if k.arg is None:
-            d = _local_dict(fn, k.value.id) if isinstance(k.value, ast.Name) else None
+            d = _local_dict(fn, k.value.id) if isinstance(k.value, ast.Name) else _literal_dict(k.value)
             if d is None:
                 opaque_spread = True
             elif name in d:
@@ -512,6 +521,12 @@ def _final_attrs(effects):
         if isinstance(s, ast.Assign) and len(s.targets) == 1 and isinstance(s.targets[0], (ast.Name, ast.Attribute)):
             val = _Subst(env).visit(copy.deepcopy(s.value))
             env[norm(s.targets[0])] = val
+        elif isinstance(s, ast.Assign) and len(s.targets) == 1 and isinstance(s.targets[0], ast.Tuple) and \
+                isinstance(s.value, ast.Tuple) and len(s.targets[0].elts) == len(s.value.elts):
+            vals = [_Subst(env).visit(copy.deepcopy(v)) for v in s.value.elts]
+            for t, v in zip(s.targets[0].elts, vals):
+                if isinstance(t, (ast.Name, ast.Attribute)):
+                    env[norm(t)] = v
     return {k: v for k, v in env.items() if k.startswith('self.')}
 
 
